@@ -133,4 +133,47 @@ def isqrtBits : Nat → Nat → Nat → Nat
 
 def isqrt (n : Nat) : Nat := isqrtBits 128 n 0
 
+/-! ## primitives used by the regenerated kernels (`WW/Gen/Kernels.lean`, written by `tools/rs2lean.py`) -/
+
+def U8MAX : Nat := 2 ^ 8 - 1
+def U16MAX : Nat := 2 ^ 16 - 1
+def U32MAX : Nat := 2 ^ 32 - 1
+
+/-- `x.unwrap()` / `x.expect(..)` on a `Result` or on an `Option` produced by a checked operation:
+    `Err` / `None` becomes a panic -/
+@[inline] def unwrapPanic {α : Type} : Res α → Res α
+  | .err => .panic
+  | r => r
+/-- `opt?` / `opt.ok_or(..)` / `opt.ok_or_else(..)` on an `Option` held as data: `None` = `err` -/
+@[inline] def optErr {α : Type} : Option α → Res α
+  | some a => .ok a
+  | none => .err
+/-- `opt.unwrap()` on an `Option` held as data -/
+@[inline] def optPanic {α : Type} : Option α → Res α
+  | some a => .ok a
+  | none => .panic
+/-- `a.saturating_add(b)` at width `max` -/
+@[inline] def satAdd (max a b : Nat) : Nat := if a + b ≤ max then a + b else max
+/-- `a.saturating_mul(b)` at width `max` -/
+@[inline] def satMul (max a b : Nat) : Nat := if a * b ≤ max then a * b else max
+/-- `x.try_into()` / `T::try_from(x)` / `to_u64()` into a narrower unsigned type: `Err` / `None` above `max` -/
+@[inline] def narrowTo (max a : Nat) : Res Nat := if a ≤ max then .ok a else .err
+/-- primitive-integer `a.pow(e)` with overflow checks: panics above `max` -/
+@[inline] def ppow (max a e : Nat) : Res Nat := if a ^ e ≤ max then .ok (a ^ e) else .panic
+/-- `Decimal256::from_atomics(v, places)`: `Err(RangeExceeded)` when `v * 10^(18-places)` overflows -/
+@[inline] def dec256FromAtomics (v p : Nat) : Res Nat := dec256WithPrecision v p
+
+/-- the `while n > 1` loop of `Decimal256::checked_pow` (square and multiply on `checked_mul`), then the
+    final unchecked `x * y`; `fuel` bounds the iterations (`n` halves every round, so `fuel = n` is enough) -/
+def dec256PowLoop : Nat → Nat → Nat → Nat → Res Nat
+  | 0, x, y, _ => dec256Mul x y
+  | fuel + 1, x, y, n =>
+    if n ≤ 1 then dec256Mul x y
+    else if n % 2 = 0 then
+      (dec256MulC x x).bind fun x2 => dec256PowLoop fuel x2 y (n / 2)
+    else
+      (dec256MulC x y).bind fun y2 => (dec256MulC x x).bind fun x2 => dec256PowLoop fuel x2 y2 ((n - 1) / 2)
+/-- `Decimal256::checked_pow(exp: u32)` on atomics -/
+def dec256PowC (x n : Nat) : Res Nat := if n = 0 then .ok E18 else dec256PowLoop n x E18 n
+
 end WW
